@@ -182,5 +182,24 @@ CHECKS["C06"] = dict(
     assumptions=["no moveShape/deleteShape of a shape added in the same open transaction (documented precondition)"],
 )
 
+CHECKS["C10"] = dict(
+    stages=[stage("C10", quick=dict(cases=3000, size=100, shards=12), thorough=dict(cases=200000, size=100, shards=16), case_timeout=600)],
+    technique="rapidcheck property-based testing: generated corridor scenes, validity predicates over raw versus nudged routes "
+              "(endpoints, segment count, checkpoints, collinear-overlap detection with an independently measured channel width)",
+    level_text="Generated orthogonal scenes built to make routes share corridors (a wall of 2-5 blocks with gaps of width 3-40, 2-8 "
+               "connectors crossing it, loose rectangles, checkpoints inside corridors, both orientations), nudging distance "
+               "0.5..8, all combinations of the four nudging options, buffer 0/1.  For every connector: nudging keeps first/last point "
+               "(unless nudgeOrthogonalSegmentsConnectedToShapes), never adds segments, keeps checkpoints on the route and keeps the "
+               "route valid; for every pair of connectors without a common endpoint, two interior segments must not remain collinear "
+               "and overlapping when the free channel measured by the harness holds all its segments at the requested distance.",
+    level_note="'Wide enough' is decided conservatively: channel width >= (k+1) x idealNudgingDistance for the k parallel segments in it; "
+               "narrower channels, segments pinned by checkpoints and straight-line fallbacks are counted, not judged.  The internally "
+               "reduced nudging distance is not observable, so only 'separated' (distance > 1e-9) is required of separated segments.",
+    rule="rapidcheck-generated corridor scenes; non-trivial = the un-nudged routes of at least two connectors share a stretch of positive length; distinct by FNV-1a of the case text",
+    min_nontrivial=dict(quick=800, thorough=40000),
+    assumptions=[],
+)
+
+# every check treats a library assertion at a site that is not a listed C15 finding as a violation of its own property
 for _k in CHECKS:
     NOT_APPLICABLE.pop(_k, None)
